@@ -394,7 +394,7 @@ def fill_query_params(query, params):
     def params_replace(node, **kwargs):
         if isinstance(node, ast.Parameter):
             value = params.pop(0)
-            return ast.Constant(value)
+            return ast.Constant(value, alias=node.alias, parentheses=node.parentheses)
 
     # put parameters into query
     query_traversal(query, params_replace)
